@@ -319,6 +319,21 @@ Theorem C13_group_refuses_containers :
 Proof. exact group_refuses. Qed.
 Print Assumptions C13_group_refuses_containers.
 
+(* parameter present / absent where it must not / must be: more than one
+   parameter, a parameter with a plain list, none with an Array-of-Hashes or a
+   hash -- refused by max, min, unique and distinct alike *)
+Theorem C13_parameter_misuse_refused :
+  forall lit re_search node_str cmp invert params data x,
+    (1 < List.length params \/
+     (exists i els p, data = NSeq i els /\ node_is_aoh true data = false /\ params = [p]) \/
+     (exists i els, data = NSeq i els /\ node_is_aoh true data = true /\ params = []) \/
+     (exists i kvs, data = NMap i kvs /\ params = [])) ->
+    extremum lit re_search node_str cmp invert params data x = Raise (YPE Generic) /\
+    kw_unique invert params data x = Raise (YPE Generic) /\
+    kw_distinct invert params data x = Raise (YPE Generic).
+Proof. exact params_refused. Qed.
+Print Assumptions C13_parameter_misuse_refused.
+
 (* ---- has_child ---- *)
 Theorem C13_has_child_hash :
   forall doc invert key i kvs x,
@@ -571,3 +586,19 @@ Proof.
   split; [|split; reflexivity].
   eexists. split; [reflexivity|]. eexists. eexists. split; [right; left; reflexivity|]. intros i v. discriminate.
 Qed.
+
+(* x: [5, 5.0] -- ints mixed with floats are outside "same-kind scalars": the
+   code orders them numerically but tests equality on their text, so max()
+   yields only the first of two numerically equal members *)
+Example C13_ex_mixed_numeric_outside :
+  omap (map c_node)
+       (kw_max ex_lit ex_re ex_str false []
+          (NSeq (mkinfo 2 None true None) [lf 5 (PInt 5); lf 6 (PFloat 5 "5.0")]) ex_ctx) =
+    Ok [AtLoc [RKey (PStr "x"); RIdx 0]].
+Proof. vm_compute. reflexivity. Qed.
+
+Example C13_ex_parameter_misuse :
+  kw_max ex_lit ex_re ex_str false ["p"] ex_list ex_ctx = Raise (YPE Generic) /\
+  kw_unique false [] ex_hoh ex_ctx = Raise (YPE Generic) /\
+  kw_distinct false ["p"; "q"] ex_aoh ex_ctx = Raise (YPE Generic).
+Proof. vm_compute. repeat split; reflexivity. Qed.
